@@ -194,6 +194,7 @@ func positiveReason(r string) bool {
 		"not hmac.New",                               //
 		"the proof MAC is not HMAC-MD5",              //
 		"the block mode runs in the wrong direction", // NewCBCDecrypter seen where NewCBCEncrypter belongs
+		"not with the variable GPPP_AES_KEY",         // another key variable was seen
 		"GPP uses 16 zero bytes",                     // a constant non-zero iv
 		"AES-CBC needs 16",                           // a constant pad size other than 16
 	} {
